@@ -3,9 +3,11 @@
 package dig
 
 import (
+	"reflect"
 	"time"
 
 	"go.uber.org/dig/internal/digclock"
+	"go.uber.org/dig/internal/dot"
 	"go.uber.org/dig/internal/graph"
 )
 
@@ -27,4 +29,15 @@ func VerifIsAcyclic(succ [][]int) (bool, []int) {
 func VerifMockClock() (Option, func(time.Duration)) {
 	m := digclock.NewMock()
 	return setClock(m), m.Add
+}
+
+// VerifResultAttributes and VerifGroupAttributes return the DOT attribute text
+// that internal/dot composes for a result node and for a value-group node
+// (errType: 0 none, 1 root cause, 2 transitive failure).
+func VerifResultAttributes(t reflect.Type, name, group string) string {
+	return (&dot.Result{Node: &dot.Node{Type: t, Name: name, Group: group}}).Attributes()
+}
+
+func VerifGroupAttributes(t reflect.Type, name string, errType int) string {
+	return (&dot.Group{Type: t, Name: name, ErrorType: dot.ErrorType(errType)}).Attributes()
 }
